@@ -54,6 +54,15 @@ type pkgInfo struct {
 	recvVar map[*ast.FuncDecl]string
 	embeds  map[string][]string // struct -> embedded struct names
 	regs    []registration
+	ctx     *substCtx // call-site context while a router's saving path is analysed
+}
+
+// substCtx: how the parameters of the function under analysis map to argument expressions of its caller
+type substCtx struct {
+	args   map[string]ast.Expr
+	fn     *ast.FuncDecl
+	recv   string
+	parent *substCtx
 }
 
 type registration struct {
@@ -494,11 +503,8 @@ func (p *pkgInfo) allOfPattern(name string, def ast.Expr, fn *ast.FuncDecl, recv
 	return res, true
 }
 
-// recognises, in fn, the expression  v.M()  where v is only ever assigned inside
-//
-//	for _, c := range R.F { ... v = c ... }
-//
-// (R the receiver): M() of an element of R.F  ->  CElemOf "F.M"
+// recognises the expression  x.M()  where x is an element of the receiver's slice R.F (see elemSource)
+// -> CElemOf "F.M"
 func (p *pkgInfo) elemOfPattern(call *ast.CallExpr, fn *ast.FuncDecl, recv string) (catExpr, bool) {
 	if len(call.Args) != 0 {
 		return catExpr{}, false
@@ -507,13 +513,62 @@ func (p *pkgInfo) elemOfPattern(call *ast.CallExpr, fn *ast.FuncDecl, recv strin
 	if !ok {
 		return catExpr{}, false
 	}
-	v, ok := sel.X.(*ast.Ident)
-	if !ok || v.Name == recv {
+	field, ok := p.elemSource(sel.X, fn, recv, p.ctx, 0)
+	if !ok {
 		return catExpr{}, false
 	}
-	if p.isParam(fn, v.Name) >= 0 {
-		return catExpr{}, false
+	return catExpr{"CElemOf", field + "." + sel.Sel.Name}, true
+}
+
+// elemSource: is the expression e (occurring in fn) an element of the receiver's slice R.F?
+//   - R.F[i]
+//   - a local variable v that is only ever assigned inside  for _, c := range R.F { ... v = c ... }
+//   - a parameter of fn, when the argument at the call site under analysis is such an element (ctx)
+func (p *pkgInfo) elemSource(e ast.Expr, fn *ast.FuncDecl, recv string, ctx *substCtx, depth int) (string, bool) {
+	if depth > 6 {
+		return "", false
 	}
+	switch v := e.(type) {
+	case *ast.ParenExpr:
+		return p.elemSource(v.X, fn, recv, ctx, depth+1)
+	case *ast.IndexExpr:
+		return isRecvField(v.X, recv)
+	case *ast.Ident:
+		if v.Name == recv {
+			return "", false
+		}
+		if p.isParam(fn, v.Name) >= 0 {
+			if ctx == nil || ctx.args == nil {
+				return "", false
+			}
+			a, ok := ctx.args[v.Name]
+			if !ok {
+				return "", false
+			}
+			// the parameter must not be reassigned in fn
+			reassigned := false
+			ast.Inspect(fn.Body, func(x ast.Node) bool {
+				if as, ok := x.(*ast.AssignStmt); ok {
+					for _, l := range as.Lhs {
+						if isIdent(l, v.Name) {
+							reassigned = true
+						}
+					}
+				}
+				return true
+			})
+			if reassigned {
+				return "", false
+			}
+			return p.elemSource(a, ctx.fn, ctx.recv, ctx.parent, depth+1)
+		}
+		return p.loopAssigned(v.Name, fn, recv)
+	}
+	return "", false
+}
+
+// loopAssigned: the local variable name is only ever assigned as  name = c  inside  for _, c := range R.F {...}
+func (p *pkgInfo) loopAssigned(name string, fn *ast.FuncDecl, recv string) (string, bool) {
 	field := ""
 	good, bad := 0, 0
 	var inRange []*ast.RangeStmt
@@ -531,7 +586,7 @@ func (p *pkgInfo) elemOfPattern(call *ast.CallExpr, fn *ast.FuncDecl, recv strin
 				return false
 			case *ast.AssignStmt:
 				for i, l := range t.Lhs {
-					if !isIdent(l, v.Name) {
+					if !isIdent(l, name) {
 						continue
 					}
 					ok := false
@@ -551,12 +606,12 @@ func (p *pkgInfo) elemOfPattern(call *ast.CallExpr, fn *ast.FuncDecl, recv strin
 				}
 			case *ast.ValueSpec:
 				for i, id := range t.Names {
-					if id.Name == v.Name && i < len(t.Values) {
+					if id.Name == name && i < len(t.Values) {
 						bad++ // declared with an initial value: not only loop-assigned
 					}
 				}
 			case *ast.UnaryExpr:
-				if t.Op == token.AND && isIdent(t.X, v.Name) {
+				if t.Op == token.AND && isIdent(t.X, name) {
 					bad++ // address taken
 				}
 			}
@@ -565,9 +620,9 @@ func (p *pkgInfo) elemOfPattern(call *ast.CallExpr, fn *ast.FuncDecl, recv strin
 	}
 	visit(fn.Body)
 	if good == 0 || bad > 0 {
-		return catExpr{}, false
+		return "", false
 	}
-	return catExpr{"CElemOf", field + "." + sel.Sel.Name}, true
+	return field, true
 }
 
 // walks the methods reachable from `start` on struct T (own + embedded methods called through the receiver)
@@ -816,13 +871,20 @@ func main() {
 	}
 }
 
-// routers save through baseRouter.routeToCategory, which builds the result itself: flows.NewResult(name, ..., category.Name(), ...)
+// routers save through baseRouter.routeToCategory / routeVia, which build the result themselves:
+// flows.NewResult(name, ..., category.Name(), ...).  Every call path from Route / RouteTimeout is analysed with
+// its own call-site context, so that a category passed as a parameter is resolved at each caller.
 func (p *pkgInfo) collectRouterSaves(t string, fn *ast.FuncDecl, owner string, r *row, visited map[string]bool) {
+	p.routerSaves(t, fn, owner, r, visited, nil)
+}
+
+func (p *pkgInfo) routerSaves(t string, fn *ast.FuncDecl, owner string, r *row, visited map[string]bool, ctx *substCtx) {
 	key := owner + "." + fn.Name.Name
 	if visited[key] || fn.Body == nil {
 		return
 	}
 	visited[key] = true
+	defer delete(visited, key)
 	recv := p.recvVar[fn]
 	ast.Inspect(fn.Body, func(x ast.Node) bool {
 		ce, ok := x.(*ast.CallExpr)
@@ -845,9 +907,11 @@ func (p *pkgInfo) collectRouterSaves(t string, fn *ast.FuncDecl, owner string, r
 				if s2, ok := c2.Fun.(*ast.SelectorExpr); ok && s2.Sel.Name == "NewResult" && len(c2.Args) >= 3 {
 					foundNew = true
 					r.SaveNames = addStr(r.SaveNames, p.fieldOf(c2.Args[0], recv))
+					p.ctx = ctx
 					for _, c := range p.cats(c2.Args[2], fn, recv, 0) {
 						r.SaveCats = addCat(r.SaveCats, c)
 					}
+					p.ctx = nil
 				}
 				return true
 			})
@@ -858,7 +922,17 @@ func (p *pkgInfo) collectRouterSaves(t string, fn *ast.FuncDecl, owner string, r
 		}
 		if isIdent(se.X, recv) {
 			if m, mo := p.findMethod(t, se.Sel.Name); m != nil {
-				p.collectRouterSaves(t, m, mo, r, visited)
+				sub := map[string]ast.Expr{}
+				k := 0
+				for _, f := range m.Type.Params.List {
+					for _, id := range f.Names {
+						if k < len(ce.Args) {
+							sub[id.Name] = ce.Args[k]
+						}
+						k++
+					}
+				}
+				p.routerSaves(t, m, mo, r, visited, &substCtx{args: sub, fn: fn, recv: recv, parent: ctx})
 			}
 		}
 		return true
